@@ -19,6 +19,7 @@ def run(ctx):
     ctx.exhaustive_note = 'complete over all month-days, all holiday records and every date of the covered years; lunar festivals on 4 scenario calendars'
     from rules import shared
     ctx.include('effect_inventory', shared.effect_inventory)   # no new process-wide mutable state (MIR statics inventory)
+    ctx.include('jd_tables', shared.jd_tables)           # civil date <-> day number and Julian date -> clock (term instants become days / instants through them)
     ctx.include('month_records', shared.month_records)   # leap table, solstice anchor, month memo, memo cells (shared, cached per source hash)
     I = ctx.interp(fuel=200000000)
     t = T(I)
